@@ -82,6 +82,31 @@ func c02Alone(kind int, lvl int, msg string) string {
 	return w.writes[0]
 }
 
+
+// c02NoTime cuts the time field off a line: two records logged one after the other carry different instants on a
+// real clock (the engine's clock stub returns fixed instants), and the time is not what is being compared
+func c02NoTime(kind int, line string) string {
+	switch kind {
+	case 0: // "2006-01-02 15:04:05 [I] ..."
+		if len(line) >= 19 {
+			return line[19:]
+		}
+	case 1: // "time=2006-01-02T15:04:05Z level=..."
+		for i := 0; i < len(line); i++ {
+			if line[i] == ' ' {
+				return line[i:]
+			}
+		}
+	default: // {"time":"2006-01-02T15:04:05.000000006Z","level":...
+		for i := 9; i+1 < len(line); i++ {
+			if line[i] == '"' && line[i+1] == ',' {
+				return line[i:]
+			}
+		}
+	}
+	return line
+}
+
 func H_C02_onewrite() {
 	kind := vxPick(3)
 	threshold := c02Levels[vxPick(5)]
@@ -120,7 +145,7 @@ func H_C02_onewrite() {
 	vxAssert(len(line) > 0 && line[len(line)-1] == '\n' && strings.Count(line, "\n") == 1, "C02: the Write does not carry exactly one complete line")
 	vxAssert(w.unlocked == 0, "C02: Write was called without holding the handler's mutex")
 	vxAssert(!vxLockHeld(mu), "C02: the mutex is still held after the record was written")
-	vxAssert(line == alone, "C02: the line differs from what the record is when logged alone (polluted by a recycled buffer?)")
+	vxAssert(c02NoTime(kind, line) == c02NoTime(kind, alone), "C02: the line differs from what the record is when logged alone (polluted by a recycled buffer?)")
 }
 
 // every logger derived from one handler serialises on the same mutex
